@@ -94,6 +94,11 @@ class NackGenerator:
         # mark missing packets
         if uint16_gt(packet.sequence_number, self.max_seq):
             seq = uint16_add(self.max_seq, 1)
+            # older packets would be dropped by truncate() anyway
+            min_seq = uint16_add(packet.sequence_number, -RTP_HISTORY_SIZE)
+            if uint16_gt(min_seq, seq):
+                seq = min_seq
+                missed = True
             while uint16_gt(packet.sequence_number, seq):
                 self.missing.add(seq)
                 missed = True
